@@ -2,6 +2,11 @@
    + - * / and mod, obtained three ways (harness/src/bin/arith.rs): `direct`, `e2e`, `conv` (see Corr/C10.v), plus
    `ref`: for numeric pairs, the answers of an independent reference computed by the Python driver (unbounded
    integers masked to 64 bits, the machine's IEEE doubles through struct, math.fmod) - a third opinion.
+   A second shape, CaseLit: the operands are numbers written as LITERALS into the program text, so that the
+   compile-time constant evaluator Op::resolve_constant sees them; E = `x op y` or `(x op y) op2 z` is evaluated at
+   run time (`[E]`), as a folded constant consumed as a value (`zip([E], [0])`) and through a variable
+   (`x = E; object_from_array([["k", x]])`), for + - * /.  All three must be what the model's binop gives (folding
+   must give up on zero divisors / NaN rather than produce a different value).
    `check`  : the model reproduces every answer of the implementation (the tie to the code);
    `oracle` : the laws of C11 judged on the implementation's answers alone. *)
 From Coq Require Import List NArith ZArith Bool.
@@ -12,7 +17,12 @@ Local Open Scope Z_scope.
 
 Record arith5 := Arith5 { r_add : outcome; r_sub : outcome; r_mul : outcome; r_div : outcome; r_rem : outcome }.
 
-Inductive case := Case (x y : value) (direct e2e : arith5) (conv ref : option arith5).
+(* one expression evaluated at run time, as a folded constant (zip), as a constant through a variable *)
+Record fold3 := Fold3 { f_plain : outcome; f_zip : outcome; f_var : outcome }.
+
+Inductive case :=
+| Case (x y : value) (direct e2e : arith5) (conv ref : option arith5)
+| CaseLit (x y : value) (nest : option (opcode * value)) (lit_ok : bool) (r_a r_s r_m r_d : fold3).
 
 Definition err_eqb (a b : err) : bool :=
   match a, b with EDivZero, EDivZero | ENan, ENan | EType, EType => true | _, _ => false end.
@@ -41,8 +51,21 @@ Definition table_eqb (eqb : outcome -> outcome -> bool) (a b : arith5) : bool :=
 Definition converted (v : value) : value :=
   match v with VInt a => VFloat (of_i64 a) | v => v end.
 
+(* `x op y`, or `(x op y) op2 z`: an error of the inner operation is the error of the whole *)
+Definition lit_model (o : opcode) (x y : value) (nest : option (opcode * value)) : outcome :=
+  match binop o x y, nest with
+  | Ok v, Some (o2, z) => binop o2 v z
+  | r, _ => r
+  end.
+
+Definition fold_matches (m : outcome) (f : fold3) : bool :=
+  outcome_eqb_nc m (f_plain f) && outcome_eqb_nc m (f_zip f) && outcome_eqb_nc m (f_var f).
+
 Definition check (c : case) : bool :=
   match c with
+  | CaseLit x y nest ok ra rs rm rd =>
+      ok && fold_matches (lit_model OAdd x y nest) ra && fold_matches (lit_model OSub x y nest) rs
+      && fold_matches (lit_model OMul x y nest) rm && fold_matches (lit_model ODiv x y nest) rd
   | Case x y d e cv _ =>
       table_eqb outcome_eqb (model_table x y) d
       && table_eqb outcome_eqb_nc (model_table x y) e
@@ -122,8 +145,14 @@ Definition laws (x y : value) (t : arith5) : bool :=
          is_err (r_add t) && is_err (r_sub t) && is_err (r_mul t) && is_err (r_div t) && is_err (r_rem t)
      end.
 
+(* compile-time folding is unobservable: the folded constant is the run-time value *)
+Definition fold_agrees (f : fold3) : bool :=
+  outcome_eqb_nc (f_plain f) (f_zip f) && outcome_eqb_nc (f_plain f) (f_var f)
+  && not_nan_result (f_plain f) && not_nan_result (f_zip f) && not_nan_result (f_var f).
+
 Definition oracle (c : case) : bool :=
   match c with
+  | CaseLit _ _ _ ok ra rs rm rd => ok && fold_agrees ra && fold_agrees rs && fold_agrees rm && fold_agrees rd
   | Case x y d e cv rf =>
       laws x y d && laws x y e && table_eqb outcome_eqb_nc d e
       && match cv with
@@ -136,5 +165,9 @@ Definition oracle (c : case) : bool :=
          end
   end.
 
-Definition model_out (c : case) : arith5 :=
-  match c with Case x y _ _ _ _ => model_table x y end.
+Definition model_out (c : case) : arith5 + list outcome :=
+  match c with
+  | Case x y _ _ _ _ => inl (model_table x y)
+  | CaseLit x y nest _ _ _ _ _ =>
+      inr [lit_model OAdd x y nest; lit_model OSub x y nest; lit_model OMul x y nest; lit_model ODiv x y nest]
+  end.
